@@ -35,6 +35,7 @@ class LogSession(RawSession):
 
     async def reset(self):
         self.log.append(("reset", self.username))
+        await super().reset()
 
     async def use(self, database):
         self.log.append(("use", database, self.username))
@@ -87,8 +88,8 @@ async def follow_up(chk, a, s, rng, authed_as, what):
     return reps
 
 
-async def run_case(chk, rng, lines, impl):
-    plugins, users, cfg_lines, meta = make_config(rng)
+async def run_case(chk, rng, lines, impl, focus=None):
+    plugins, users, cfg_lines, meta = make_config(rng, focus)
     FakeSystemRandom.draws = []
     s = LogSession()
     srv = mkserver([s], identity_provider=IDP(plugins, users))
@@ -103,6 +104,12 @@ async def run_case(chk, rng, lines, impl):
     user_key = rng.choice(list(users) + ["mallory", "mallory"])
     strategy = rng.choice(STRATS)
     announce = rng.choice([default_client or "", "mysql_native_password", "mysql_clear_password", "custom2_client", "bogus_plugin", ""])
+    if focus == "multi":
+        # an account of the two-round plugin, reached through an auth switch; answers the plugin must refuse but another
+        # plugin's rules would accept (empty), right ones, wrong ones
+        user_key = "cust"
+        strategy = rng.choice(["empty", "empty", "right", "wrong", "junk", "wrong2", "trunc"])
+        announce = rng.choice(["mysql_native_password", "mysql_clear_password", "bogus_plugin", ""])
     if announce == "mysql_native_password":
         resp = native_resp(rng, strategy, greet_data.rstrip(b"\0"), meta)
     elif announce == "mysql_clear_password":
@@ -330,6 +337,8 @@ def main():
     async def go():
         for k in range(500 if not chk.thorough else 60000):
             await run_case(chk, rng, lines, impl)
+        for k in range(80 if not chk.thorough else 5000):
+            await run_case(chk, rng, lines, impl, focus="multi")
         await truncations(chk, rng, quick=not chk.thorough)
         await bad_sequence(chk, rng)
 
